@@ -44,6 +44,9 @@ func main() {
 		for _, fn := range e.order {
 			if strings.Contains(c.FnName(fn), *e1dump) {
 				e.Dump(fn)
+				if os.Getenv("E1PTS") != "" {
+					e.DumpPts(fn)
+				}
 			}
 		}
 		fmt.Println("external:", e.External)
